@@ -16,8 +16,14 @@ Reading (how the words of the property are taken; the oracle below implements ex
 * "every symbolic duration the library assigns": every non-empty `symbolic_duration` of a note or rest of the part
   after the call (the generator never presets one); `{}` = no value assigned.  It is evaluated with the quarter
   duration in force at the note's start (`note.start.quarter`), tolerance 1e-9 relative for the binary64 product.
-* "filling rests ... never change the sounding notes": an exception raised by fill_rests changes no note and is
-  not a violation of this sentence (it is counted in the evidence).
+* "filling rests": fill_rests has to complete on every part of the quantifier (an exception is reported as
+  fill_rests/raises - repair C11-7: a measure in which nothing starts); the rests it adds are judged like notes
+  (note array unchanged; symbolic duration = numeric duration).  The code evaluates all members of a composite rest
+  with the divisions in force at the start of the stretch it fills, so a member is judged only when no
+  quarter-duration change lies strictly inside the measure it was filled into (a measure that straddles a
+  quarter-duration change is outside the Reading's preconditions anyway).  WHERE rests are put (exactly the gaps of
+  each voice within each measure) is not part of the property's statement: it is proved for the model
+  (rests_fill_gaps) and compared, not judged by the oracle.
 * the estimator "reports that no single notated value exists" by returning an empty dict.
 * sanitising: the generated parts contain only well-formed structures (contiguous ties, grace notes with a main
   note); removal of malformed ones is the documented purpose of sanitize_part and is not judged.
@@ -32,7 +38,7 @@ from core import Eval
 
 PROPERTY = "C11"
 DRIVER = "drv_c11"
-PROPS = ["PartituraModel.Props.C11"]
+PROPS = ["PartituraModel.Props.C11", "PartituraModel.Props.C11Rests", "PartituraModel.Props.C11Bar", "PartituraModel.Props.C11Rows"]
 TRUSTED = [
     "np.searchsorted(side='left') on the sorted duration tables = number of entries < value",
     "binary64 evaluation of dur/div, eps/div and n*straight/qdur: for integer dur, div every comparison of the "
@@ -41,22 +47,37 @@ TRUSTED = [
     "Part.beat_map / inv_beat_map are C02's exact maps (Model/TimeMap.lean, checked by property C02)",
     "Part.iter_all yields objects in time order, insertion order within a time point; Part.add/remove keep it",
     "np.arange on integers",
+    "np.unique on a column = sorted distinct values, on rows (axis=0) and np.setdiff1d on row views = lexicographically "
+    "sorted distinct rows; np.argmin/np.argmax return the first extremal index",
+    "np.argsort in _fill_rests_within_measure is modelled as a stable sort: the choice among equal start (end) times only "
+    "selects which note of the voice lends its staff to a rest (compared on generated voices that wander between staves)",
+    "binary64 evaluation of st + symbolic_to_numeric_duration(sd, divs) for the members of a composite rest is exact "
+    "(checked for every composite answer of the estimator, div 1..960; the model uses exact rationals and the harness "
+    "compares the exact binary value of every time)",
 ]
 PARTIAL = [
     "estimate_back / estimate_total are proved for integer durations (all div >= 1, all dur); for non-integer float "
     "durations the tolerance makes the claim false by design; estimate_back_composite needs div <= 2^40 (binary64 table)",
-    "measures_tile / numbers_consecutive / measure_lengths are proved for every bar-end map that answers a later "
-    "integer position on integer positions (C11Meas.Integral) and parts satisfying TsOK / ExistingOK (the Reading); "
-    "that the concrete barEnd (C02's beat maps) is such a map when bar lengths are integral is compared, not proved",
-    "tie_notes_sound_same (list level) proves that every walkable tie chain keeps its summed duration and end and every "
-    "note its onset/pitch/voice/staff/id under its key, and that no non-row becomes a row; that no row is lost "
-    "(the following note of a split note keeps a tie_prev) holds by construction but is only compared; the order of "
-    "the rows is compared",
+    "measures_tile / numbers_consecutive / measure_lengths hold for every bar-end map that is Integral; for add_measures "
+    "itself (C02's beat maps) they are proved as *_real under BarsIntegral: positive divisions and signature numbers, and "
+    "every stretch of one time signature free of quarter-duration changes with a whole number L = 4*quarter_duration/"
+    "beat_type of divisions per beat (decidable from the part; the evidence counts the generated parts that satisfy it). "
+    "Parts outside it (a beat that is not a whole number of divisions, a quarter-duration change inside a stretch) are only "
+    "compared; TsOK / ExistingOK (the Reading's preconditions) are hypotheses throughout",
+    "tie_rows_same / tie_notes_sound_same speak about the rows as key, onset, pitch, voice, id plus the recursion Walk of "
+    "duration_tied/end_tied, under distinct keys and ties that point at notes with a back link; the executable fuel-bounded "
+    "`sounding` of the model is not related to Walk by a theorem (it is what the driver prints and the harness compares)",
     "tie_notes stage 2 (find_tie_split + split_note) and find_tuplets are unreachable in the current code because "
     "estimate_symbolic_duration returns {} instead of None (theorems stage2_dead, tuplet_candidates_empty); split_note "
     "is modelled, covered by tie_sound_same/split_sound, and compared through a Note subclass whose symbolic_duration "
     "may be None (a plain Note always fails split_note's sanity assertion)",
-    "fill_rests: oracle only (note array invariant, symbolic durations of the rests it adds); not modelled",
+    "fill_rests (Model/Rests.lean, both modes): rests_sound_same(_global) and rest_symdur hold for all inputs of the model; "
+    "rests_fill_gaps / rests_fill_staves are per measure, for integer times and quarter durations <= 2^40, and speak about "
+    "objects that START in the measure, grouped by voice (as the code does; not by voice and staff); that a later measure's "
+    "window sees no rest added for an earlier one (disjoint measures) is not stated as a theorem; global mode fills only "
+    "before the first / after the last object of a (voice, staff) by design, so there is no gap theorem for it; the later "
+    "members of a composite rest are evaluated with the divisions at the start of the stretch, which are the divisions in "
+    "force at their own start only if no quarter-duration change lies inside the stretch",
     "sanitize_part: only the tie check is modelled (sanitize_sound_same: a no-op on lists whose tie links join adjacent "
     "notes) and compared; removal of incomplete slurs/tuplets/grace notes is outside the generated domain",
 ]
@@ -66,12 +87,13 @@ RULE = ("(a) estimator: every div 1..960 x every integer dur 1..8 div (thorough)
         "on random arguments; (c) generated parts: divisions from {1..960}, 1-6 bars from 13 signatures, optional late "
         "first signature, offset start, quarter-duration change, existing measures none/all/some/irregular "
         "(pickup, partial, split bars), notes with arbitrary integer onsets/durations (plain, dotted, tuplet, odd, "
-        "multi-bar, across signature changes), chords, ties, slurs, rests, grace notes, odd ids. distinct = distinct "
+        "multi-bar, across signature changes), chords, ties, slurs, rests, grace notes, odd ids, voices on one staff or "
+        "wandering between three staves; fill_rests measure-wise (70 %) or global. distinct = distinct "
         "request text; non-trivial = estimator returned a value / a note was split / a measure was added")
 LEVEL_TEXT = ("Lean 4 theorems (all durations and divisions, all measure layouts and split lists, whole regenerated "
-              "tables by kernel decision) about executable models of the estimator, the split search, add_measures and "
-              "tie_notes; the models are tied to the code by an exhaustive differential sweep of the estimator over "
-              "div 1..960 and a differential run over generated parts.")
+              "tables by kernel decision) about executable models of the estimator, the split search, add_measures, "
+              "tie_notes and fill_rests; the models are tied to the code by an exhaustive differential sweep of the "
+              "estimator over div 1..960 and a differential run over generated parts.")
 
 STEPS = "CDEFGAB"
 DIVS = [1, 2, 3, 4, 5, 6, 7, 8, 10, 12, 16, 24, 48, 96, 480, 960]
@@ -267,6 +289,7 @@ def gen_part(rng):
     span_end = L + (rng.randint(1, 2 * q) if rng.random() < 0.1 else 0)
     for v in range(1, nvoices + 1):
         staff = rng.choice([1, 1, 2]) if rng.random() < 0.3 else 1
+        cross = rng.random() < 0.1   # a voice that wanders between the staves
         pos = off + (rng.randint(0, 2 * q) if rng.random() < 0.4 else 0)
         prev = None
         while pos < span_end and len(notes) < 40:
@@ -280,6 +303,8 @@ def gen_part(rng):
             else:
                 dur = rng.randint(1, 3)
             dur = max(1, min(dur, span_end - pos))
+            if cross and prev is None:   # (a tied continuation stays on the staff of its predecessor)
+                staff = rng.choice([1, 2, 3])
             r = rng.random()
             if r < 0.1:
                 notes.append({"id": "r%d" % nid, "t": pos, "dur": dur, "kind": "rest", "voice": v, "staff": staff})
@@ -447,13 +472,13 @@ def numeric_exact(sd):
     return Fraction(LAB[ty]) * DOT[dots] * Fraction(sd.get("normal_notes") or 1, sd.get("actual_notes") or 1)
 
 
-def check_symbolic(part, stage, out, limit=3):
+def check_symbolic(part, stage, out, limit=3, exempt=()):
     import partitura.score as S
     import partitura.utils.music as M
 
     cnt = 0
     for n in part.iter_all(S.GenericNote, include_subclasses=True):
-        if isinstance(n, S.GraceNote) or n.end is None:
+        if isinstance(n, S.GraceNote) or n.end is None or id(n) in exempt:
             continue
         sd = n.symbolic_duration
         if not sd or isinstance(sd, tuple):
@@ -563,6 +588,36 @@ def add_measures_pre(d, first, last):
     if any(barlen(t) <= 0 for t in cuts):
         return False, None
     return True, bar_end
+
+
+def bars_integral(d, first, last):
+    """the side condition BarsIntegral of Props/C11Bar.lean, computed from the case description"""
+    ts = sorted([list(x) for x in d["ts"]], key=lambda x: x[0])
+    if not ts or first >= last:
+        return None
+    qd = [[0, d["divs"]]] + [list(x) for x in d.get("qd", [])]
+    if any(b <= 0 or bt <= 0 for _, b, bt in ts) or any(q <= 0 for _, q in qd):
+        return False
+    starts = [t for t, _, _ in ts]
+    if starts[0] > first:
+        starts = [first] + starts
+    ends = starts[1:] + [last]
+    for s, e in zip(starts, ends):
+        if s >= e:
+            continue
+        if any(s < t < e for t, _ in qd):
+            return False
+        bt = 4
+        for t, _, x in ts:
+            if t <= s:
+                bt = x
+        q = d["divs"]
+        for t, x in qd:
+            if t <= s:
+                q = x
+        if (4 * q) % bt != 0:
+            return False
+    return True
 
 
 def check_add_measures(d, before, after, first, last, out):
@@ -721,6 +776,7 @@ def eval_part(d, ev):
     if sounding(part) != snd0:
         ev.oracle.append("add_measures/note-array: changed from %s to %s" % (snd0, sounding(part)))
     info["added"] = len(after) - len(before)
+    info["bars_integral"] = bars_integral(d, first, last)
     nontrivial = nontrivial or len(after) > len(before)
 
     # ---- tie_notes
@@ -737,12 +793,12 @@ def eval_part(d, ev):
     nontrivial = nontrivial or len(ns1) > len(ns0)
     stages = [("tie_notes", None)]
 
-    def judge(stage):
+    def judge(stage, exempt=()):
         snd = sounding(part)
         if snd != snd0:
             ev.oracle.append("%s/note-array: changed from %s to %s" % (stage, snd0, snd))
         check_chains(part, stage, ev.oracle)
-        check_symbolic(part, stage, ev.oracle)
+        check_symbolic(part, stage, ev.oracle, exempt=exempt)
 
     judge("tie_notes")
     check_within_measure(part, "tie_notes", ev.oracle)
@@ -772,14 +828,58 @@ def eval_part(d, ev):
         ev.impl.append(W.f_list(lambda n: W.f_tuple(ref(n), ref(n.tie_prev), ref(n.tie_next)), list(part.iter_all(S.Note))))
         judge("sanitize_part")
 
-    # ---- fill_rests (oracle only)
-    nrest0 = len(list(part.iter_all(S.Rest)))
-    _, exc = call(S.fill_rests, part, d.get("measurewise", True))
-    info["fill_rests_raised"] = None if exc is None else type(exc).__name__
-    info["rests_added"] = len(list(part.iter_all(S.Rest))) - nrest0
-    judge("fill_rests")
+    # ---- fill_rests
+    eval_fill(part, d, ev, info, judge)
     ev.info = info
     return nontrivial
+
+
+def _num(t):
+    return W.q(W.as_fraction(t))
+
+
+def eval_fill(part, d, ev, info, judge):
+    """fill_rests against the model (the rests it adds) and the oracle (it completes; note array; symbolic durations)"""
+    import partitura.score as S
+
+    mw = bool(d.get("measurewise", True))
+    gn = list(part.iter_all(S.GenericNote, include_subclasses=True))
+    old = set(id(r) for r in part.iter_all(S.Rest))
+    ms = [(m.start.t, m.end.t) for m in part.measures]
+    qd = list(zip(part._quarter_times, part._quarter_durations))
+    encodable = all(isinstance(n.voice, int) and isinstance(n.staff, int) and n.end is not None for n in gn)
+    req = None
+    if encodable:
+        notes = W.lst(lambda n: "%s %s %d %d" % (_num(n.start.t), _num(n.end.t), n.voice, n.staff), gn)
+        spans = W.lst(lambda m: "%s %s" % (_num(m[0]), _num(m[1])), ms)
+        qds = W.lst(lambda x: "%d %d" % (x[0], x[1]), qd)
+        if mw:
+            req = "fillm %s %d %s %s" % (qds, part.number_of_staves, spans, notes)
+        else:
+            na, exc = call(part.note_array, include_staff=True)
+            if exc is None:
+                uvs = sorted(set((int(v), int(st)) for v, st in zip(na["voice"], na["staff"])))
+                req = "fillg %s %s %s %s" % (qds, W.lst(lambda x: "%d %d" % x, uvs), spans, notes)
+    _, exc = call(S.fill_rests, part, mw)
+    info["fill_rests_raised"] = None if exc is None else type(exc).__name__
+    new = [r for r in part.iter_all(S.Rest) if id(r) not in old]
+    info["rests_added"] = len(new)
+    info["fill_mode"] = "measurewise" if mw else "global"
+    info["composite_rests"] = sum(1 for r in new if float(r.end.t) != int(r.end.t) or float(r.start.t) != int(r.start.t))
+    if req is not None:
+        ev.requests.append(req)
+        if exc is not None:
+            ev.impl.append("err")
+        else:
+            ev.impl.append(W.f_list(lambda r: W.f_tuple(_num(r.start.t), _num(r.end.t), W.f_int(r.voice), W.f_int(r.staff),
+                                                         "N" if r._sym_dur is None else fmt_est(r._sym_dur)), new))
+    if exc is not None:
+        ev.oracle.append("fill_rests/raises: fill_rests(part, measurewise=%s) raised %r" % (mw, exc))
+    # members of composite rests in a measure with a quarter-duration change strictly inside it are not judged (Reading)
+    changes = [t for t, _ in qd[1:]]
+    straddling = [(a, b) for a, b in ms if any(a < c < b for c in changes)]
+    exempt = set(id(r) for r in new if any(a <= r.start.t < b for a, b in straddling))
+    judge("fill_rests", exempt)
 
 
 def eval_splitnote(d, ev):
@@ -920,7 +1020,10 @@ def distribution(descs, results):
         "parts_by_existing_measures": dict(Counter(d.get("mode") for d, _ in parts)),
         "parts_by_divs": dict(Counter(d["divs"] for d, _ in parts)),
         "measures_added": sum((r.get("info") or {}).get("added", 0) for _, r in parts),
+        "parts_with_BarsIntegral": dict(Counter(str((r.get("info") or {}).get("bars_integral")) for _, r in parts)),
         "notes_created_by_tie_notes": sum((r.get("info") or {}).get("split", 0) for _, r in parts),
         "fill_rests_raised": dict(Counter(str((r.get("info") or {}).get("fill_rests_raised")) for _, r in parts)),
         "rests_added": sum((r.get("info") or {}).get("rests_added", 0) for _, r in parts),
+        "fill_mode": dict(Counter(str((r.get("info") or {}).get("fill_mode")) for _, r in parts)),
+        "rests_with_non_integral_time": sum((r.get("info") or {}).get("composite_rests", 0) for _, r in parts),
     }
